@@ -13,6 +13,7 @@ mod p_md;
 mod p_gen;
 mod p_upd;
 mod p_yaml;
+mod p_render;
 
 use std::io::{BufWriter, Write};
 
@@ -38,6 +39,7 @@ fn main() {
         "gen" => p_gen::main(&args[1..], &mut w),
         "upd" => p_upd::main(&args[1..], &mut w),
         "yaml" => p_yaml::main(&args[1..], &mut w),
+        "render" => p_render::main(&args[1..], &mut w),
         "consts" => p_consts::main(&args[1..], &mut w),
         x => { eprintln!("unknown subcommand {}", x); std::process::exit(2); }
     }
